@@ -37,13 +37,13 @@ CHECKS = {
    technique="runtime monitoring: /proc process-state monitor over enumerated start-failure causes"),
  "C06": dict(
    category="exploration",
-   text="Runtime monitor: rounds of 1-64 concurrently outstanding distinct ids on a real in-process net/rpc plugin connection (both directions, accept-first/dial-first, gaps inside the window, ids around the uint32 wrap, an Accept held (hook point) between pick-up and acknowledgement across the expiry instant of the parked dial, pairs on ids that were used before and straddle the earlier dial's 5 s mark, concurrent Dispense traffic incl. dispenses whose reserved id crosses the wrap and dispenses of a plugin whose Server() fails, seeded jitter at the mux hook points, race detector on); each end records the unique token and PRNG payload it read; the offline oracle checks the dial(id)<->accept(id) bijection, byte-exact payloads, no failure inside the window, and that every Dispense reaches a distinct server object of the requested name.",
+   text="Runtime monitor: rounds of 1-64 concurrently outstanding distinct ids on a real in-process net/rpc plugin connection (both directions, accept-first/dial-first, gaps inside the window, ids around the uint32 wrap, an Accept held (hook point) between pick-up and acknowledgement across the expiry instant of the parked dial, pairs on ids that were used before and straddle the earlier dial's 5 s mark, one-way transfers whose reader starts 6 s after the sender closed, concurrent Dispense traffic incl. dispenses whose reserved id crosses the wrap and dispenses of a plugin whose Server() fails, seeded jitter at the mux hook points, race detector on); each end records the unique token and PRNG payload it read; the offline oracle checks the dial(id)<->accept(id) bijection, byte-exact payloads, no failure inside the window, and that every Dispense reaches a distinct server object of the requested name.",
    design_ref="DESIGN.md section 3, C06",
    note="Both ends in one process via plugin.TestPluginRPCConn; gaps kept >= 1 s inside the 5 s window.",
    technique="runtime monitoring: unique-token routing oracle over recorded accept/dial events, hook-point jitter, race detector"),
  "C07": dict(
    category="exploration",
-   text="Runtime monitor: rounds of 1-32 concurrently outstanding ids on a real in-process gRPC connection without multiplexing, both directions and orders, in-process and against real subprocesses behind custom runners that translate addresses (other path spelling; unix socket reached through a TCP forwarder, i.e. another network kind) with call counters on the translator; pairs on ids that were dialled once in vain before; every accepted id serves a PingPong service answering '<id>/<nonce>', the dialler's first call must be answered by its own id's server; jitter at the grpcbroker hook points; race detector on.",
+   text="Runtime monitor: rounds of 1-32 concurrently outstanding ids on a real in-process gRPC connection without multiplexing, both directions and orders, in-process and against real subprocesses behind custom runners that translate addresses (other path spelling; unix socket reached through a TCP forwarder, i.e. another network kind) with call counters on the translator; pairs on ids that were dialled once in vain before; pairs in the callback shape (the id number used in the other direction first, the dialling side's own listener of that number closed between accept and dial); every accepted id serves a PingPong service answering '<id>/<nonce>', the dialler's first call must be answered by its own id's server; jitter at the grpcbroker hook points; race detector on.",
    design_ref="DESIGN.md section 3, C07",
    note="In-process pair via plugin.TestPluginGRPCConn (no TLS); TLS and address-translation paths are exercised through real subprocesses by other checks.",
    technique="runtime monitoring: id/nonce echo oracle over brokered gRPC connections, hook-point jitter, race detector"),
@@ -121,7 +121,7 @@ CHECKS = {
    technique="runtime monitoring: file-system listing + goroutine-dump leak monitor after graceful shutdown"),
  "C20": dict(
    category="exploration",
-   text="Sanitizer + runtime monitor: concurrent rounds (4/16/64 goroutines) over in-process MuxBroker / GRPCBroker / multiplexed pairs and over one real Client with a race-built plugin process serving several dispensed implementations and brokered connections; a third of the rounds race Close / server Stop / concurrent Kill with in-flight operations; managed clients are created while CleanupClients runs; every other client round uses AutoMTLS against a plugin logging to stderr from process start, the others have a second host reattached to the same plugin while the operations make it write to stdout/stderr; seeded jitter at every hook point. The Go race detector runs in both processes (reports attributed to go-plugin by accessing frame and de-duplicated by function pair), host deaths, recovered panics and plugin-side panic lines are violations, and the multiset of NextId results must be duplicate-free.",
+   text="Sanitizer + runtime monitor: concurrent rounds (4/16/64 goroutines) over in-process MuxBroker / GRPCBroker / multiplexed pairs and over one real Client with a race-built plugin process serving several dispensed implementations and brokered connections; a third of the rounds race Close / server Stop / concurrent Kill with in-flight operations; managed clients are created while CleanupClients runs; every other broker round starts with bursts of NextId calls across the uint32 wrap; every other client round uses AutoMTLS against a plugin logging to stderr from process start, the others have a second host reattached to the same plugin while the operations make it write to stdout/stderr; seeded jitter at every hook point. The Go race detector runs in both processes (reports attributed to go-plugin by accessing frame and de-duplicated by function pair), host deaths, recovered panics and plugin-side panic lines are violations, and the multiset of NextId results must be duplicate-free.",
    design_ref="DESIGN.md section 3, C20",
    note="A clean race-detector run covers only the accesses and schedules this workload produced (bounded per-location history).",
    technique="sanitizer: Go race detector on host and plugin under a concurrent stress workload, plus panic and NextId-uniqueness monitors"),
